@@ -34,8 +34,6 @@ assume pure func (v reflect.Value) Interface() interface{}
   ensures v.Kind() == reflect.Interface && !v.IsNil() ==> reflect.TypeOf(result) == v.Elem().Type()
   ensures v.Kind() == reflect.Interface && v.IsNil() ==> isnil(result)
 
-assume func (w i.SafeWriter) Print(args ...interface{})
-
 -- The public entry points of the package are one-line delegations to internal/rfmt, internal/markers and
 -- internal/fmtforward. Each carries the contract of the function it delegates to: a property stated about
 -- "Sprint", "Fprintf", "EscapeMarkers"... is a property of THESE functions, and a delegation to the wrong sibling
